@@ -405,3 +405,63 @@ seeded("c20-getattr-default-none", ["C20"], [(SL, "        return getattr(self.t
 seeded("c20-kwargs-on-link", ["C20"], [("anytree/node/symlinknode.py", "        self.target.__dict__.update(kwargs)\n", "        self.__dict__.update(kwargs)\n")], ["L4"])
 seeded("c20-symlink-overrides-children", ["C20"], [(SL, "    def __getattr__(self, name):", "    @property\n    def children(self):\n        return self.target.children\n\n    def __getattr__(self, name):")], ["L3"])
 benign("c20-local-table-as-set", ["C20", "C19"], [(SL, 'if name in ("_NodeMixin__parent", "_NodeMixin__children", "parent", "children", "target"):', 'if name in {"_NodeMixin__parent", "_NodeMixin__children", "parent", "children", "target"}:')])
+
+# ------------------------------------------------------------------ C06
+PRE = IT + "preorderiter.py"
+POST = IT + "postorderiter.py"
+LO = IT + "levelorderiter.py"
+LOG = IT + "levelordergroupiter.py"
+ZZ = IT + "zigzaggroupiter.py"
+AB = IT + "abstractiter.py"
+seeded("c06-preorder-stop-not-applied", ["C06"], [(PRE, "            if stop(child_):\n                continue\n", "")], ["S1"])
+seeded("c06-preorder-descent-under-filter", ["C06"], [(PRE, """            if filter_(child_):
+                yield child_
+            if not AbstractIter._abort_at_level(2, maxlevel):
+                descendantmaxlevel = maxlevel - 1 if maxlevel else None
+                for descendant_ in PreOrderIter._iter(child_.children, filter_, stop, descendantmaxlevel):
+                    yield descendant_
+""", """            if not filter_(child_):
+                continue
+            yield child_
+            if not AbstractIter._abort_at_level(2, maxlevel):
+                descendantmaxlevel = maxlevel - 1 if maxlevel else None
+                for descendant_ in PreOrderIter._iter(child_.children, filter_, stop, descendantmaxlevel):
+                    yield descendant_
+""")], ["S2"])
+seeded("c06-preorder-guard-level-3", ["C06"], [(PRE, "if not AbstractIter._abort_at_level(2, maxlevel):", "if not AbstractIter._abort_at_level(3, maxlevel):")], ["S3"])
+seeded("c06-preorder-maxlevel-not-decremented", ["C06"], [(PRE, "descendantmaxlevel = maxlevel - 1 if maxlevel else None", "descendantmaxlevel = maxlevel if maxlevel else None")], ["S3"])
+seeded("c06-preorder-no-depth-guard", ["C06"], [(PRE, "            if not AbstractIter._abort_at_level(2, maxlevel):\n                descendantmaxlevel = maxlevel - 1 if maxlevel else None\n                for descendant_",
+                                                "            if True:\n                descendantmaxlevel = maxlevel - 1 if maxlevel else None\n                for descendant_")], ["S3"])
+seeded("c06-postorder-level-start-0", ["C06"], [(POST, "return PostOrderIter.__next(children, 1, filter_, stop, maxlevel)", "return PostOrderIter.__next(children, 0, filter_, stop, maxlevel)")], ["S3"])
+seeded("c06-postorder-level-not-incremented", ["C06"], [(POST, "PostOrderIter.__next(grandchildren, level + 1, filter_, stop, maxlevel)", "PostOrderIter.__next(grandchildren, level, filter_, stop, maxlevel)")], ["S3"])
+seeded("c06-postorder-raw-grandchildren", ["C06"], [(POST, "grandchildren = AbstractIter._get_children(child.children, stop)", "grandchildren = child.children")], ["S1"])
+seeded("c06-postorder-yield-unfiltered", ["C06"], [(POST, "                if filter_(child):\n                    yield child\n", "                yield child\n")], ["S2"])
+seeded("c06-levelorder-level-starts-0", ["C06"], [(LO, "        level = 1\n", "        level = 0\n")], ["S3"])
+seeded("c06-levelorder-no-increment", ["C06"], [(LO, "            level += 1\n", "")], ["S3"])
+seeded("c06-levelorder-descend-only-filtered", ["C06"], [(LO, """                    if filter_(child):
+                        yield child
+                    next_children += AbstractIter._get_children(child.children, stop)
+""", """                    if filter_(child):
+                        yield child
+                        next_children += AbstractIter._get_children(child.children, stop)
+""")], ["S2"])
+seeded("c06-levelorder-stop-dropped", ["C06"], [(LO, "next_children += AbstractIter._get_children(child.children, stop)", "next_children += list(child.children)")], ["S1"])
+seeded("c06-group-level-increment-after-guard", ["C06"], [(LOG, "            level += 1\n            if AbstractIter._abort_at_level(level, maxlevel):\n                break\n",
+                                                            "            if AbstractIter._abort_at_level(level, maxlevel):\n                break\n            level += 1\n")], ["S3"])
+seeded("c06-group-skips-empty-filtered-level", ["C06"], [(LOG, "            yield tuple(child for child in children if filter_(child))\n",
+                                                          "            group = tuple(child for child in children if filter_(child))\n            if group:\n                yield group\n")], ["S5"])
+seeded("c06-group-unfiltered", ["C06"], [(LOG, "            yield tuple(child for child in children if filter_(child))\n", "            yield tuple(children)\n")], ["S2"])
+seeded("c06-zigzag-drops-stop", ["C06"], [(ZZ, "_iter = LevelOrderGroupIter(children[0], filter_, stop, maxlevel)", "_iter = LevelOrderGroupIter(children[0], filter_, None, maxlevel)")], ["S4"])
+seeded("c06-zigzag-maxlevel-plus-one", ["C06"], [(ZZ, "_iter = LevelOrderGroupIter(children[0], filter_, stop, maxlevel)", "_iter = LevelOrderGroupIter(children[0], filter_, stop, maxlevel + 1 if maxlevel else maxlevel)")], ["S4"])
+seeded("c06-init-start-not-stop-checked", ["C06"], [(AB, "AbstractIter._get_children([node], stop)", "[node]")], ["S1"])
+seeded("c06-init-start-guard-level-0", ["C06"], [(AB, "AbstractIter._abort_at_level(1, maxlevel)", "AbstractIter._abort_at_level(0, maxlevel)")], ["S3"])
+seeded("c06-abort-ge", ["C06"], [(AB, "return maxlevel is not None and level > maxlevel", "return maxlevel is not None and level >= maxlevel")], ["S3"])
+seeded("c06-abort-truthiness", ["C06"], [(AB, "return maxlevel is not None and level > maxlevel", "return bool(maxlevel) and level > maxlevel")], ["S3"])
+seeded("c06-init-swaps-options", ["C06"], [(AB, "return self._iter(children, filter_, stop, maxlevel)", "return self._iter(children, stop, filter_, maxlevel)")], ["S4"])
+seeded("c06-get-children-inverted", ["C06"], [(AB, "return [child for child in children if not stop(child)]", "return [child for child in children if stop(child)]")], ["S1"])
+benign("c06-preorder-yield-from", ["C06", "C05"], [(PRE, "                for descendant_ in PreOrderIter._iter(child_.children, filter_, stop, descendantmaxlevel):\n                    yield descendant_\n",
+                                                    "                yield from PreOrderIter._iter(child_.children, filter_, stop, descendantmaxlevel)\n")])
+benign("c06-preorder-none-test", ["C06"], [(PRE, "descendantmaxlevel = maxlevel - 1 if maxlevel else None", "descendantmaxlevel = maxlevel - 1 if maxlevel is not None else None")])
+benign("c06-levelorder-level-from-2", ["C06"], [(LO, "        level = 1\n", "        level = 2\n"), (LO, "            level += 1\n            if AbstractIter._abort_at_level(level, maxlevel):", "            if AbstractIter._abort_at_level(level, maxlevel):"),
+                                                (LO, "            children = next_children\n", "            children = next_children\n            level += 1\n")])
+benign("c06-group-concat-augassign", ["C06"], [(LOG, "next_children = next_children + AbstractIter._get_children(child.children, stop)", "next_children += AbstractIter._get_children(child.children, stop)")])
